@@ -6,7 +6,7 @@ w=/tmp/seed/$id
 [ -f $w/seeded/patch.diff ] || { echo "no patch.diff"; exit 2; }
 cd $w || exit 2
 cp -r seeded /tmp/seed/$id.deliver
-git checkout -q -- . 2>/dev/null; git stash -q 2>/dev/null
+git checkout -q -- . 2>/dev/null
 git status --short | grep -v '^??' | head -3
 rm -rf _b
 echo "--- unmodified tree: demo must pass"
